@@ -883,8 +883,16 @@ func genHistory(r *rand.Rand) history {
 			cdesc{Kind: "dict", Parts: []tval{tag(1), name("c"), {T: "int", I: 7}}, Depth: 3},
 			cdesc{Kind: "var", Parts: []tval{tag(2), name("a"), {T: "int", I: 0}}})
 	}
+	if bt == 0 && r.Intn(2) == 0 {
+		// scoredb-like layout below a parent builder made over a prefix slice with spare capacity
+		h.Spare = true
+		for i := range h.Cs {
+			h.Cs[i].Parts = append([]tval{name("cx")}, h.Cs[i].Parts...)
+		}
+	}
 	n := 18 + r.Intn(30)
 	alen := map[int]int{}
+	nslot := 0
 	for i := 0; i < n; i++ {
 		c := r.Intn(len(h.Cs))
 		d := h.Cs[c]
@@ -920,6 +928,31 @@ func genHistory(r *rand.Rand) history {
 				h.Ops = append(h.Ops, hop{O: "size", C: c})
 			}
 		case "dict":
+			if d.Depth >= 2 && r.Intn(4) == 0 {
+				// two sibling sub-dictionaries are derived first and used afterwards, the first after the second
+				pairs := [][2]string{{"alice", "bobby"}, {"a", "b"}, {"ab", "a"}, {"k1", "k2"}}
+				pr := pairs[r.Intn(len(pairs))]
+				ka := []tval{name(pr[0])}
+				kb := []tval{name(pr[1])}
+				if r.Intn(4) == 0 {
+					ka, kb = []tval{{T: "int", I: 1}}, []tval{{T: "int", I: 2}}
+				}
+				var x []tval
+				for j := 1; j < d.Depth; j++ {
+					x = append(x, name("x"))
+				}
+				nslot += 2
+				sa, sb := nslot-1, nslot
+				h.Ops = append(h.Ops,
+					hop{O: "dopen", C: c, Chain: [][]tval{ka}, Slot: sa},
+					hop{O: "dopen", C: c, Chain: [][]tval{kb}, Slot: sb},
+					hop{O: "dset", C: c, Chain: [][]tval{ka}, Slot: sa, Keys: x, V: smallVal(r)},
+					hop{O: "dset", C: c, Chain: [][]tval{kb}, Slot: sb, Keys: x, V: smallVal(r)},
+					hop{O: "dget", C: c, Chain: [][]tval{ka}, Slot: sa, Keys: x},
+					hop{O: "dget", C: c, Keys: append(append([]tval{}, ka...), x...)},
+					hop{O: "dget", C: c, Keys: append(append([]tval{}, kb...), x...)})
+				continue
+			}
 			var chain [][]tval
 			rem := d.Depth
 			for rem > 0 && r.Intn(3) == 0 {
@@ -1009,6 +1042,144 @@ func coqHist(h history, outs []string, tab htab) string {
 	return fmt.Sprintf("(CHist %s %s)", hxlib.CoqList(cs), hxlib.CoqList(ops))
 }
 
+
+// ------------------------------------------------------------------ sibling keys over a prefix with spare capacity
+
+type sibCase struct {
+	Hashed bool     `json:"hashed"`
+	Pre    string   `json:"pre"`   // hex: the caller's prefix
+	Spare  int      `json:"spare"` // spare capacity of the slice that holds it
+	Root   []tval   `json:"root"`
+	Sibs   [][]tval `json:"sibs"`
+	Tail   []tval   `json:"tail"`
+}
+
+// builds root = prefix+Root, then one key per sibling, and only then looks at them again
+func sibOracle(sc sibCase) (coq string, msg string) {
+	pre, _ := hex.DecodeString(sc.Pre)
+	buf := make([]byte, len(pre), len(pre)+sc.Spare)
+	copy(buf, pre)
+	whole := buf[:cap(buf)]
+	for i := len(pre); i < len(whole); i++ {
+		whole[i] = 0xEE
+	}
+	before := append([]byte{}, whole...)
+	n := len(sc.Sibs)
+	early, late, deep := make([][]byte, n), make([][]byte, n), make([][]byte, n)
+	p := hxlib.Catch(func() {
+		if sc.Hashed {
+			root := containerdb.NewHashKey(buf, goVals(sc.Root)...)
+			ks := make([]containerdb.KeyBuilder, n)
+			for i, sb := range sc.Sibs {
+				ks[i] = root.Append(goVals(sb)...)
+				early[i] = append([]byte{}, ks[i].Build()...)
+			}
+			for i := range ks {
+				late[i] = ks[i].Build()
+				deep[i] = ks[i].Append(goVals(sc.Tail)...).Build()
+			}
+		} else {
+			k0 := containerdb.AppendKeys(buf, goVals(sc.Root)...)
+			ks := make([][]byte, n)
+			for i, sb := range sc.Sibs {
+				ks[i] = containerdb.AppendKeys(k0, goVals(sb)...)
+				early[i] = append([]byte{}, ks[i]...)
+			}
+			for i := range ks {
+				late[i] = append([]byte{}, ks[i]...)
+				deep[i] = containerdb.AppendKeys(ks[i], goVals(sc.Tail)...)
+			}
+		}
+	})
+	if p != "" {
+		return "", "panic: " + p
+	}
+	what := "AppendKeys"
+	if sc.Hashed {
+		what = "NewHashKey(...).Append"
+	}
+	if !bytes.Equal(whole, before) {
+		msg = fmt.Sprintf("%s wrote into the caller's prefix slice (len %d, cap %d): %x -> %x", what, len(pre), cap(buf), cut(before), cut(whole))
+	}
+	cn := make([]string, n)
+	for i, sb := range sc.Sibs {
+		cn[i] = canon(refParts(sb))
+	}
+	for i := 0; i < n && msg == ""; i++ {
+		if !bytes.Equal(early[i], late[i]) {
+			msg = fmt.Sprintf("the key of sibling path %d changed after later siblings were derived from the same parent: %x -> %x", i, cut(early[i]), cut(late[i]))
+		}
+	}
+	for i := 0; i < n && msg == ""; i++ {
+		for j := i + 1; j < n && msg == ""; j++ {
+			if cn[i] == cn[j] {
+				continue
+			}
+			if bytes.Equal(late[i], late[j]) || bytes.Equal(deep[i], deep[j]) || bytes.Equal(early[i], early[j]) {
+				msg = fmt.Sprintf("sibling paths %d and %d (part lengths %v, %v) below one parent map to the same key %x", i, j, lens(refParts(sc.Sibs[i])), lens(refParts(sc.Sibs[j])), cut(late[i]))
+			}
+		}
+	}
+	// reference values and the Coq term
+	h := htab{}
+	rootP := refParts(sc.Root)
+	rl := func(b []byte) string { return rleCoq(b) }
+	var ce, cl, cd []string
+	for i, sb := range sc.Sibs {
+		path := append(append([][]byte{}, rootP...), refParts(sb)...)
+		w1 := append(append([]byte{}, pre...), refConcat(path)...)
+		w2 := append(append([]byte{}, pre...), refConcat(append(path, refParts(sc.Tail)...))...)
+		if sc.Hashed {
+			w1, w2 = h.add(w1), h.add(w2)
+		}
+		if msg == "" && (!bytes.Equal(late[i], w1) || !bytes.Equal(deep[i], w2)) {
+			msg = fmt.Sprintf("key of sibling path %d is %x / %x, expected %x / %x", i, cut(late[i]), cut(deep[i]), cut(w1), cut(w2))
+		}
+		ce, cl, cd = append(ce, rl(early[i])), append(cl, rl(late[i])), append(cd, rl(deep[i]))
+	}
+	var sibs []string
+	for _, sb := range sc.Sibs {
+		sibs = append(sibs, coqTvs(sb))
+	}
+	coq = fmt.Sprintf("(CSib %s %s %s %s %s %s %s %s %s)", hxlib.CoqBool(sc.Hashed), rleCoq(pre), coqTvs(sc.Root), hxlib.CoqList(sibs), coqTvs(sc.Tail),
+		h.coq(), hxlib.CoqList(ce), hxlib.CoqList(cl), hxlib.CoqList(cd))
+	return
+}
+
+func genSib(r *rand.Rand) sibCase {
+	sc := sibCase{Hashed: r.Intn(2) == 0, Spare: []int{0, 1, 8, 64, 200, 200}[r.Intn(6)]}
+	pre := make([]byte, []int{0, 0, 1, 17, 21}[r.Intn(5)])
+	r.Read(pre)
+	sc.Pre = hex.EncodeToString(pre)
+	str := func(x string) tval { return tval{T: "str", Lit: hex.EncodeToString([]byte(x))} }
+	for i := r.Intn(3); i > 0; i-- {
+		sc.Root = append(sc.Root, []tval{str("balances"), {T: "byte", X: 1}, str("d"), randInt(r)}[r.Intn(4)])
+	}
+	names := [][]string{{"alice", "bobby", "carol"}, {"a", "b", "c"}, {"x", "yy", "zzz"}, {"ab", "a", ""}}[r.Intn(4)]
+	ns := 2 + r.Intn(2)
+	for i := 0; i < ns; i++ {
+		var sb []tval
+		switch r.Intn(4) {
+		case 0:
+			sb = []tval{{T: "int", I: int64(i)}}
+		case 1:
+			sb = []tval{str(names[i]), str("k")}
+		case 2:
+			sb = []tval{randPart(r, false)}
+			if sb[0].Rep > 100 {
+				sb[0].Rep = 100
+			}
+		default:
+			sb = []tval{str(names[i])}
+		}
+		sc.Sibs = append(sc.Sibs, sb)
+	}
+	for i := r.Intn(3); i > 0; i-- {
+		sc.Tail = append(sc.Tail, []tval{str("x"), {T: "int", I: 0}, {T: "bool", B: true}}[r.Intn(3)])
+	}
+	return sc
+}
+
 // ------------------------------------------------------------------ generation
 
 type input struct {
@@ -1018,6 +1189,7 @@ type input struct {
 	Hex   string   `json:"hex,omitempty"`
 	Val   *tval    `json:"val,omitempty"`
 	Hist  *history `json:"hist,omitempty"`
+	Sib   *sibCase `json:"sib,omitempty"`
 }
 
 func toBytesCase(v tval) (coq, msg string) {
@@ -1218,6 +1390,27 @@ func gen(c *hxlib.Ctx) {
 		coq, msg := splitCase(k)
 		emit(hxlib.Case{Kind: "split-malformed", Coq: coq, Key: fmt.Sprint("sm", i), Input: input{Kind: "split", Hex: hex.EncodeToString(k)}, OracleErr: msg, Nontrivial: len(k) > 1})
 	}
+	// 3b. sibling keys derived from one parent over a prefix slice with spare capacity
+	for i := 0; i < c.N(200); i++ {
+		sc := genSib(r)
+		if i == 0 { // the textbook instance
+			sc = sibCase{Hashed: true, Pre: hex.EncodeToString([]byte("cx-contract-0001/")), Spare: 111,
+				Root: []tval{{T: "str", Lit: hex.EncodeToString([]byte("balances"))}},
+				Sibs: [][]tval{{{T: "str", Lit: hex.EncodeToString([]byte("alice"))}}, {{T: "str", Lit: hex.EncodeToString([]byte("bobby"))}}},
+				Tail: []tval{{T: "str", Lit: hex.EncodeToString([]byte("x"))}}}
+		}
+		coq, msg := sibOracle(sc)
+		kind := "sib-append"
+		if sc.Hashed {
+			kind = "sib-hashed"
+		}
+		cs := hxlib.Case{Kind: kind, Input: input{Kind: "sib", Sib: &sc}, OracleErr: msg, Nontrivial: true, Coq: coq}
+		if coq == "" || c.OracleOnly {
+			cs.Coq = ""
+			cs.Key = fmt.Sprint("sib", i)
+		}
+		emit(cs)
+	}
 	// 4. container histories
 	for i := 0; i < c.N(400); i++ {
 		h := genHistory(c.Sub("hist", i))
@@ -1267,6 +1460,9 @@ func replay(raw json.RawMessage) string {
 	case "hist":
 		_, _, msg := runHist(*in.Hist)
 		return msg
+	case "sib":
+		_, msg := sibOracle(*in.Sib)
+		return msg
 	}
 	return "unknown case kind " + in.Kind
 }
@@ -1277,8 +1473,9 @@ func main() {
 		Rule: "1500 random key tuples (1-4 typed parts at ToKey, 0-2 Append calls) over the four builders, parts = ints (all byte-width boundaries, negatives, int16/32/64), bools, addresses, single bytes, " +
 			"strings/bytes of lengths {0,1,55,56,255,256,65535,65536} and neighbours with header-like first bytes; boundary and confusable tuples ([p++q] vs [p,q], 0x81 x vs x, the 56-byte header ambiguity); " +
 			"ToBytes of every integer boundary with Int64() read-back; SplitKeys on built RLP keys and on a malformed stream (truncated, non-canonical, size fields 1-8 bytes, list tags); " +
-			"400 histories of put/pop/set/get/size, set/get/delete on VarDB, two ArrayDBs and nested DictDBs (GetDB chains, wrong arities) laid out like service/scoredb over one map-backed store, with each builder. " +
-			"Direct oracles: distinct part lists => distinct keys over everything generated, SplitKeys(AppendKeys(parts)) = parts, per-type injectivity of ToBytes, containers = Go slices/maps. " +
+			"200 sibling-key cases (NewHashKey / AppendKeys over a caller's prefix held in a slice with spare capacity, 2-3 siblings derived from one parent, key bytes recorded right after construction and again at the end); " +
+			"400 histories of put/pop/set/get/size, set/get/delete on VarDB, two ArrayDBs and nested DictDBs (GetDB chains, wrong arities) laid out like service/scoredb over one map-backed store, with each builder (half of the hashed ones below one parent builder made over a spare-capacity prefix; sibling sub-dictionaries are derived first and used afterwards). " +
+			"Direct oracles: a built key never changes after it was returned, the caller's prefix slice is not written beyond its length, distinct part lists => distinct keys over everything generated, SplitKeys(AppendKeys(parts)) = parts, per-type injectivity of ToBytes, containers = Go slices/maps. " +
 			"non-trivial = key tuples with >= 2 parts, all ToBytes/history cases, split inputs longer than one byte; distinct = distinct Coq case term",
 		Shard: 250,
 		Gen:   gen, Replay: replay,
